@@ -717,3 +717,78 @@ lemma(
     inline=['LeCreditBasedChannel.abort', 'LeCreditBasedChannel._change_state'] + FUT_INLINE,
     note='no exception may escape LeCreditBasedChannel.abort (it runs inside the loops of ChannelManager.on_disconnection)',
 )
+
+
+# ---------------------------------------------------------------------------
+# GATT client: the request in flight is released when its bearer goes away
+# ---------------------------------------------------------------------------
+model('bumble.gatt_client:Client#c16', fields=dict(pending_response=Opt(FUT), pending_request=Any))
+
+
+def lemma_gatt_client_disconnection(client):
+    """Client.on_disconnection is the listener of the bearer's 'disconnection' (ACL) / 'close' (EATT channel) event
+    (registered in Client.__init__, see register lemma below): the future send_request waits on is finished"""
+    waiting_on = client.pending_response
+    state0 = fst(waiting_on)
+    client.on_disconnection(0)
+    assert fut_released(waiting_on), 'pending-request-released'
+    assert fst(waiting_on) == (CANCELLED if state0 == PENDING else state0), 'cancelled-if-it-was-pending'
+
+
+lemma(
+    'gatt_client_disconnection',
+    lemma_gatt_client_disconnection,
+    prop='C16',
+    params=dict(client=Inst('bumble.gatt_client:Client#c16')),
+    modifies=['client.pending_response.st'],
+    inline=['Client.on_disconnection'] + FUT_INLINE,
+    note='send_request itself clears pending_request / pending_response in its finally block when the cancellation reaches it',
+)
+
+
+# ---------------------------------------------------------------------------
+# SMP: the pairing session of the connection is forgotten
+# ---------------------------------------------------------------------------
+SMP_EVENTS = {'disconnection': 1, 'connection_encryption_change': 2, 'connection_encryption_key_refresh': 3}
+
+
+def smp_conn_remove_listener(ghost, event, fn):
+    ghost.unlistened = ghost.unlistened + [SMP_EVENTS[event]]
+
+
+def smp_on_session_end(ghost, session):
+    ghost.ended = ghost.ended + 1
+
+
+model('bumble.device:Connection#smp', fields=dict(handle=HANDLE), methods={'remove_listener': Callback('remove_listener', effect=smp_conn_remove_listener)})
+model('ghost:SmpManager#c16', fields={}, methods={'on_session_end': Callback('on_session_end', effect=smp_on_session_end)})
+model('bumble.smp:Session#c16', fields=dict(connection=Inst('bumble.device:Connection#smp'), manager=Inst('ghost:SmpManager#c16')))
+model('bumble.smp:Session#c16rec', fields={})
+model('bumble.smp:Manager#c16', fields=dict(sessions=MapOf('bumble.smp:Session#c16rec')))
+
+contract(
+    'bumble.smp:Session.on_disconnection',
+    prop='C16',
+    params=dict(self=Inst('bumble.smp:Session#c16'), _=REASON),
+    ghost=dict(unlistened=ListOf(Int), ended=Int),
+    ensures=lambda self, old, ghost: [
+        # the manager is told (it drops the session, below), once; the session stops listening to its connection
+        ghost.ended == old.ghost.ended + 1,
+        ghost.unlistened == old.ghost.unlistened + [1, 2, 3],
+    ],
+    ensures_names=['manager-told-once', 'listeners-removed'],
+    modifies=['ghost.unlistened', 'ghost.ended'],
+)
+
+contract(
+    'bumble.smp:Manager.on_session_end',
+    prop='C16',
+    params=dict(self=Inst('bumble.smp:Manager#c16'), session=Inst('bumble.smp:Session#c16')),
+    ghost=dict(g=HANDLE),
+    ensures=lambda self, session, old, ghost: [
+        not mhas(self.sessions, session.connection.handle),
+        implies(ghost.g != session.connection.handle, iff(mhas(self.sessions, ghost.g), mhas(old.self.sessions, ghost.g))),
+    ],
+    ensures_names=['no-session-for-the-closed-connection', 'other-sessions-kept'],
+    modifies=['self.sessions'],
+)
